@@ -158,8 +158,17 @@ def gen_wait_case(rng, nsteps):
     for _ in range(nsteps):
         r = rng.below(10)
         if r < 3 or not tracked:
-            if rng.chance(1, 5):
+            k = rng.below(10)
+            if k < 2:
                 lines.append(f"spawnfail {rng.choice([2, 13, 8, 20])}")
+            elif k < 4:
+                lines.append(f"forkfail {rng.choice([11, 12])}")          # EAGAIN / ENOMEM at fork
+            elif k < 7:
+                # a stdio table, often above the 8-slot inline array, on a dirty heap
+                lines.append(f"fill {rng.choice([0, 0x5A, 0xFF, 1, 0x80])}")
+                cnt = rng.choice([0, 1, 3, 8, 9, 10, 12, 16, 33])
+                sl = [rng.choice(["i", "i", "p", f"f{rng.below(12)}"]) for _ in range(cnt)]
+                lines.append("spawnl" + "".join(" " + x for x in sl)); tracked.append(n)
             else:
                 lines.append("spawn"); tracked.append(n)
             n += 1
@@ -190,6 +199,8 @@ def wait_monitor(lines, out):
     tracked, n, cbs, failed = [], 0, {}, set()
     for cmd in lines:
         w = cmd.split()
+        if w[0] == "fill":
+            continue
         blk = []
         for o in it:
             blk.append(o)
@@ -199,8 +210,25 @@ def wait_monitor(lines, out):
             return f"a child already reaped was waited for again at `{cmd}`"
         if any("NOT-REAPED" in o for o in blk):
             return f"exit_cb before the child was reaped at `{cmd}`"
+        for o in blk:
+            if "MASK-CHANGED" in o:
+                return f"`{cmd}`: uv_spawn returned with a different signal mask of the calling thread: {o}"
+            if "FD-LEAK" in o:
+                return f"`{cmd}`: uv_spawn changed the number of open descriptors: {o}"
         if w[0] == "reset":
             tracked, n, cbs, failed = [], 0, {}, set()
+        elif w[0] == "spawnl":
+            sl = w[1:] + ["i"] * (3 - len(w[1:]))
+            exp = "pipes " + " ".join("-1" if x == "i" else ("p" if x == "p" else x[1:]) for x in sl)
+            if blk[0] != exp:
+                return f"`{cmd}`: table handed to the child `{blk[0]}`, containers say `{exp}`"
+            if blk[1] != "ret 0 active 1":
+                return f"successful spawn: {blk[1]}"
+            tracked.append(n); n += 1
+        elif w[0] == "forkfail":
+            if blk[0] != f"ret -{w[1]} active 0 reaped 0":
+                return f"fork failure (errno {w[1]}) must return the error and leave the handle inactive: {blk[0]}"
+            failed.add(n); n += 1
         elif w[0] == "spawn":
             if blk[0] != "ret 0 active 1":
                 return f"successful spawn: {blk[0]}"
@@ -246,7 +274,7 @@ def run_wait(ctx, exe, cases, diff=True):
         k = 0
         for c in cases:
             # consume lines until the number of terminators (tracked/bad-op) equals len(c)
-            need, blk = len(c), []
+            need, blk = sum(1 for x in c if not x.startswith("fill")), []
             while need and k < len(ls):
                 blk.append(ls[k])
                 if ls[k].startswith("tracked") or ls[k] == "bad-op": need -= 1
@@ -310,8 +338,8 @@ def gen_layout(rng, cnt, fail, placed):
     return slots
 
 
-def layout_cmd(slots, fail=False, det=0, cwd="-", env="-", uid=-1):
-    return f"layout {'fail' if fail else 'ok'} {det} {cwd} {env} {uid} {len(slots)} " + " ".join(slots)
+def layout_cmd(slots, fail=False, det=0, cwd="-", env="-", uid=-1, forkfail=False):
+    return f"layout {'forkfail' if forkfail else ('fail' if fail else 'ok')} {det} {cwd} {env} {uid} {len(slots)} " + " ".join(slots)
 
 
 def layout_monitor(cmd, blk):
@@ -328,9 +356,17 @@ def layout_monitor(cmd, blk):
         return "spawn-crash", f"harness died: {blk[-3:]}"
     if "timeout" in blk:
         return "spawn-exit-cb-missing", "child spawned but exit_cb never ran within 10 s"
-    if fail:
+    fdl = next((l.split()[1:] for l in blk if l.startswith("fds ")), None)
+    if w[1] == "forkfail":
+        if sp != "spawn EAGAIN active=0":
+            return "spawn-fork-failure-not-reported", f"fork() failing with EAGAIN: `{sp}` (expected EAGAIN, handle inactive)"
+        fail = True
+    elif fail:
         if sp != "spawn ENOENT active=0":
             return "spawn-exec-failure-not-reported", f"exec of a non-existent program with stdio_count={cnt}: `{sp}` (expected ENOENT, handle inactive)"
+    if fail:
+        if fdl is None or fdl[0] != fdl[1]:
+            return "spawn-failure-descriptor-leak", f"failed spawn ({w[1]}) left the parent with {fdl} open descriptors (before, after); slots {slots}"
         if cbs:
             return "spawn-exit-cb-after-failed-spawn", f"exit_cb ran for a failed spawn: {cbs}"
         if zl != "zombie ECHILD":
@@ -432,8 +468,8 @@ def run_spawn(ctx, exe, cmds):
     k = 0
     for c in cmds:
         w = c.split()[0]
-        if w in ("place", "unplace"):
-            if k >= len(lines) or lines[k] not in ("placed", "unplaced"):
+        if w in ("place", "unplace", "fill"):
+            if k >= len(lines) or lines[k] not in ("placed", "unplaced", "filled"):
                 ctx.broken_correspondence("c12_spawn harness", f"`{c}` -> {lines[k:k+1]}"); return False
             k += 1; continue
         blk = []
@@ -441,6 +477,12 @@ def run_spawn(ctx, exe, cmds):
             blk.append(lines[k]); k += 1
             if blk[-1] == "end": break
         ctx.count()
+        mc = next((l for l in blk if l.startswith("MASK-CHANGED")), None)
+        if mc:
+            if ctx.violation("spawn-sigmask-changed", f"C12 uv_spawn (real fork/exec): the calling thread's signal mask differs after uv_spawn: {mc}; `{c}`",
+                             {"mode": "spawn", "cmds": [c]}):
+                return False
+            continue
         sig, what = {"layout": layout_monitor, "many": many_monitor, "kill": kill_monitor,
                      "echo": lambda c, b: (None, None) if b == ["cb 0 7 0 wp=ECHILD active=0", "echo ok", "zombie ECHILD", "end"]
                      else ("spawn-pipe-direction", f"echo through stdin/stdout pipes: {b}")}[w](c, blk)
@@ -448,7 +490,7 @@ def run_spawn(ctx, exe, cmds):
             ctx.log("generator problem:", what); continue
         if sig:
             if sig in ("spawn-crash",): what += f" rc={rc} stderr={err[-400:]}"
-            if ctx.violation(sig, f"C12 uv_spawn (real fork/exec): {what}; `{c}`", {"mode": "spawn", "cmds": [x for x in cmds if x.split()[0] == 'place'] + [c]}):
+            if ctx.violation(sig, f"C12 uv_spawn (real fork/exec): {what}; `{c}`", {"mode": "spawn", "cmds": [x for x in cmds[:cmds.index(c)] if x.split()[0] in ('place', 'fill')] + [c]}):
                 return False
         else:
             if w == "layout":
@@ -482,6 +524,23 @@ def spawn_cases(ctx, rng):
         sl = gen_layout(rng, cnt, False, placed)
         cmds.append(layout_cmd(sl))
         if rng.chance(1, 2): cmds.append(layout_cmd(sl, fail=True))
+        if rng.chance(1, 6): cmds.append(layout_cmd(sl, forkfail=True)); cmds.append("many 0 e3")
+    # failures at fork (EAGAIN): error returned, nothing left behind, and later children are still noticed
+    for sl in [[], ["f0", "f2", "f1"], ["pr", "pw", "prw", "i", "f5"], gen_layout(rng, 12, False, placed)]:
+        cmds.append(layout_cmd(sl, forkfail=True)); cmds.append(layout_cmd(sl))
+    cmds.append(layout_cmd(["i", "i", "i"], forkfail=True)); cmds.append("many 0 e7 s15 e0")
+    # dirty heap x stdio_count above the 8-slot inline array: ignore / inherit / pipe at indices >= 8 in all combinations
+    kinds = ["i", "f4", "pw"]
+    for fb in (0x00, 0x5A):
+        cmds.append(f"fill {fb}")
+        for a in kinds:
+            for b in kinds:
+                cmds.append(layout_cmd(["f0", "f1", "f2", "i", "i", "f3", "i", "pr", a, b]))
+        for cnt in (9, 13, 40):
+            sl = gen_layout(rng, cnt, False, placed)
+            cmds.append(layout_cmd(sl)); cmds.append(layout_cmd(sl, fail=True))
+        cmds.append(layout_cmd(["i"] * rng.choice([9, 17, 33])))
+    cmds.append(f"fill {rng.choice([0xFF, 0x01, 0x80])}")
     # options
     cmds.append(layout_cmd(["f0", "f1", "f2"], det=1, cwd="/proc", env="hello"))
     cmds.append(layout_cmd(["i", "f1", "f2"], det=0, cwd="/", env="x=y"))
@@ -560,7 +619,8 @@ def run(ctx):
             cm = ["place 40 3", "place 41 4", "place 57 8"]
             for _ in range(ctx.scale(150, 1500)):
                 sl = gen_layout(srng, srng.choice([3, 5, 9, 16, 24, 40, 60]), False, [40, 41, 57])
-                cm += [layout_cmd(sl), layout_cmd(sl, fail=True)]
+                cm += [f"fill {srng.choice([0, 0x5A, 0xFF, 1])}", layout_cmd(sl), layout_cmd(sl, fail=True)]
+                if srng.chance(1, 4): cm += [layout_cmd(sl, forkfail=True), "many 0 e3 e4"]
             cm += [gen_many(srng, srng.range(2, 20)) for _ in range(ctx.scale(20, 200))]
             n += len(cm)
             run_spawn(ctx, sexe, cm)
